@@ -137,7 +137,6 @@ int main(int argc, char** argv)
     auto const keys = sp::enumerate(thorough, /* extended = */ true);
     if (int(sp::leaves().size()) < sp::num_base_leaves || sp::find_leaf("gptlo") != sp::num_base_leaves)
         R.harness_error("leaf zoo: the base leaves are not the first num_base_leaves entries");
-    Tolerance<> const tol = Tolerance<>::from_default();
     // irrational fractions of the lattice spacing
     double const shift[3] = {std::sqrt(2.0) - 1.0, (std::sqrt(3.0) - 1.0) / 2, (std::sqrt(5.0) - 1.0) / 2};
     Real3 const dir = make_unit_vector(Real3{0.36, 0.48, 0.8});
@@ -229,6 +228,19 @@ int main(int argc, char** argv)
             for (auto const& t : prog.tags)
                 if (t.rfind("leaf:", 0) == 0)
                     kinds += (kinds.empty() ? "" : "+") + t.substr(5);
+            // A global unit whose boundary IS the solid (pl_self_world): UnitProto documents that
+            // it must be able to determine finite extents of the global boundary and refuses
+            // otherwise ("global boundary must be finite"; happens for boundaries whose bounding
+            // zone is negated, e.g. a solid with more than half a turn removed).  A refusal is not
+            // a wrong point assignment: counted and tagged, no verdict.
+            if (keys[ki].place == sp::pl_self_world
+                && std::string(e.what()).find("global boundary must be finite") != std::string::npos)
+            {
+                R.count("programs_refused_global_boundary_extents");
+                R.tag("refused:global-boundary-extents");
+                R.end_case();
+                continue;
+            }
             // one recorded defect gets its own signature: a GenPrism whose two end faces BOTH
             // have a duplicate among their leading three vertices is rejected as "both degenerate"
             bool const leaddup_both
@@ -263,7 +275,10 @@ int main(int argc, char** argv)
         CollectionStateStore<OrangeStateData, MemSpace::host> state(params->host_ref(), 1);
         OrangeTrackView geo(params->host_ref(), state.ref(), TrackSlotId{0});
 
-        ld const threshold = 10 * ld(tol.rel) * std::max<ld>(1, prog.scale);
+        // 10 x the larger of the absolute tolerance and the relative tolerance at the world's
+        // length scale (default tolerance: abs = rel, i.e. 10 * tol.rel * max(1, L))
+        Tolerance<> const ptol = sp::tolerance_of(prog.tol);
+        ld const threshold = 10 * std::max<ld>(ld(ptol.abs), ld(ptol.rel) * prog.scale);
         if (R.verbose())
         {
             fprintf(stderr, "program %s\n  scale %.3g threshold %.3Lg  surfaces %zu volumes %zu\n",
@@ -282,22 +297,8 @@ int main(int argc, char** argv)
         std::map<std::string, uint64_t> seen_expected;
         uint64_t mismatches = 0, compared = 0, ambiguous = 0;
         uint64_t outcome = vf::hash_str(cid);
-        // pass 0: lattice over the world box x 1.08 (exterior, background, boundary regions);
-        // pass 1: lattice over the box around the materials, shifted by irrational fractions of
-        // its spacing (dense inside the solids, never aligned with "round" surface positions)
-        for (int pass = 0; pass < 2; ++pass)
-            for (int ix = 0; ix < nlat; ++ix)
-                for (int iy = 0; iy < nlat; ++iy)
-                    for (int iz = 0; iz < nlat; ++iz)
-                    {
-                        so::Box3 const& box = pass == 0 ? prog.probe : prog.content;
-                        int const idx[3] = {ix, iy, iz};
-                        Real3 pos;
-                        for (int k = 0; k < 3; ++k)
-                        {
-                            double step = double(box.hi[k] - box.lo[k]) / (nlat - 1 + pass);
-                            pos[k] = double(box.lo[k]) + step * (idx[k] + pass * shift[k]);
-                        }
+        // the comparison of ONE probe point
+        auto probe_point = [&](Real3 const& pos) {
                         so::V3 const p{ld(pos[0]), ld(pos[1]), ld(pos[2])};
                         sp::Expect ex = prog.locate(p, threshold);
                         if (ex.kind == sp::Expect::overlap || ex.kind == sp::Expect::hole)
@@ -309,7 +310,7 @@ int main(int argc, char** argv)
                         if (ex.kind == sp::Expect::ambiguous)
                         {
                             ++ambiguous;
-                            continue;
+                            return;
                         }
                         // ---- real code ----
                         geo = GeoTrackInitializer{pos, dir};
@@ -327,7 +328,7 @@ int main(int argc, char** argv)
                         ++seen_expected[ex.label];
                         outcome = vf::hash_mix(outcome, vf::hash_str(observed));
                         if (observed == ex.label)
-                            continue;
+                            return;
 
                         // ---- disagreement: attribute to a leaf if flipping it explains it ----
                         ++mismatches;
@@ -374,8 +375,25 @@ int main(int argc, char** argv)
                             v.erase(std::unique(v.begin(), v.end()), v.end());
                             return v;
                         };
+                        // recorded defect with its own signature: under the second tolerance
+                        // (abs = 100 rel) two copies of a curved leaf at |t| ~ 50 that are 4e-3
+                        // = 40 abs apart are merged (SoftSurfaceEqual::soft_eq_distance scales
+                        // the ABSOLUTE tolerance with the magnitude).  Only this window is
+                        // recorded: the same programs at 8e-3, under the default tolerance, with
+                        // planar leaves, or with a leaf that is wrong on its own keep the generic
+                        // signatures.
+                        bool far_merged = false;
+                        if (keys[ki].kind == 'f' && keys[ki].tol == 1 && alone.empty()
+                            && (keys[ki].xb == sp::xf_far4 || keys[ki].xb == sp::xf_farg4))
+                            for (auto const& t : st.surface_types)
+                                if (t != "px" && t != "py" && t != "pz" && t != "p")
+                                    far_merged = true;
+                        if (all_kinds.empty())
+                            all_kinds.push_back("hierarchy");
                         if (leaddup)
                             sigs.push_back("genprism-leaddup:end-plane-missing");
+                        else if (far_merged)
+                            sigs.push_back("softeq-distance:far-copies-merged");
                         else if (!alone.empty())
                             for (auto const& k : uniq(alone))
                                 sigs.push_back("leaf-membership:" + k);
@@ -396,7 +414,91 @@ int main(int argc, char** argv)
                                             prog.units.back().materials.empty()
                                                 ? "-"
                                                 : prog.units.back().materials[0].region->str().c_str()));
+        };
+        // pass 0: lattice over the world box x 1.08 (exterior, background, boundary regions);
+        // pass 1 (and one more per Program::more_content box): lattice over the box around the
+        // materials, shifted by irrational fractions of its spacing (dense inside the solids,
+        // never aligned with "round" surface positions)
+        int const npass = 2 + int(prog.more_content.size());
+        for (int pass = 0; pass < npass; ++pass)
+            for (int ix = 0; ix < nlat; ++ix)
+                for (int iy = 0; iy < nlat; ++iy)
+                    for (int iz = 0; iz < nlat; ++iz)
+                    {
+                        so::Box3 const& box = pass == 0   ? prog.probe
+                                              : pass == 1 ? prog.content
+                                                          : prog.more_content[pass - 2];
+                        int const sh = pass ? 1 : 0;
+                        int const idx[3] = {ix, iy, iz};
+                        Real3 pos;
+                        for (int k = 0; k < 3; ++k)
+                        {
+                            double step = double(box.hi[k] - box.lo[k]) / (nlat - 1 + sh);
+                            pos[k] = double(box.lo[k]) + step * (idx[k] + sh * shift[k]);
+                        }
+                        probe_point(pos);
                     }
+        // directed pass (Program::directed_len > 0: two copies of a solid displaced by that
+        // length along directed_dir): from each point of a 5^3 lattice over the content box
+        // march along +dir in steps of 0.04 over 2.4 length units, locate every change of the
+        // membership in the FIRST copy by bisection (oracle only) and probe at +-1/2 and +-3/2
+        // of the displacement around it (the second copy's boundary is one displacement further
+        // along +dir): the thin regions that belong to exactly one of the copies.
+        if (prog.directed_len > 0)
+        {
+            int const nd = 5;
+            double const len = prog.directed_len;
+            so::V3 const u{ld(prog.directed_dir[0]), ld(prog.directed_dir[1]), ld(prog.directed_dir[2])};
+            // membership in the FIRST copy (leaf-local frame of part 0), by the oracle alone
+            auto const& part0 = prog.parts.at(0);
+            auto const& xf0 = sp::transforms()[part0.xf];
+            auto label_at = [&](so::V3 const& q) {
+                so::V3 l = so::to_daughter(prog.tree_r, prog.tree_t, q);
+                l = so::to_daughter(xf0.m3(), xf0.v3(), l);
+                return part0.node->eval(l).in;
+            };
+            uint64_t directed = 0;
+            for (int ix = 0; ix < nd; ++ix)
+                for (int iy = 0; iy < nd; ++iy)
+                    for (int iz = 0; iz < nd; ++iz)
+                    {
+                        int const idx[3] = {ix, iy, iz};
+                        ld q0[3];
+                        for (int k = 0; k < 3; ++k)
+                        {
+                            ld step = (prog.content.hi[k] - prog.content.lo[k]) / nd;
+                            q0[k] = prog.content.lo[k] + step * (idx[k] + ld(shift[k]));
+                        }
+                        auto at = [&](ld s) {
+                            return so::V3{q0[0] + s * u.x, q0[1] + s * u.y, q0[2] + s * u.z};
+                        };
+                        ld const ds = 0.04L;
+                        bool prev = label_at(at(0));
+                        for (int m = 1; m <= 60; ++m)
+                        {
+                            bool cur = label_at(at(m * ds));
+                            if (cur == prev)
+                                continue;
+                            // bisect the first change in ((m-1) ds, m ds]
+                            ld lo = (m - 1) * ds, hi = m * ds;
+                            for (int it = 0; it < 30; ++it)
+                            {
+                                ld mid = (lo + hi) / 2;
+                                (label_at(at(mid)) == prev ? lo : hi) = mid;
+                            }
+                            for (int off : {-3, -1, 1, 3})
+                            {
+                                so::V3 q = at(hi + ld(off) * ld(len) / 2);
+                                probe_point(Real3{double(q.x), double(q.y), double(q.z)});
+                                ++directed;
+                            }
+                            prev = cur;
+                        }
+                    }
+            R.count("directed_probes", directed);
+            if (directed)
+                R.tag("probe:directed");
+        }
         R.count("evaluations", compared);
         R.count("ambiguous_skipped", ambiguous);
         R.count("mismatches", mismatches);
@@ -429,9 +531,10 @@ int main(int argc, char** argv)
                          seen_expected.size(), (unsigned long long)mismatches));
         R.end_case();
     }
-    R.note("space", fmt("%zu programs in tier %s (%zu leaves, %d unary / %d binary transforms, %d "
-                        "placements), %d^3 x 2 probes each",
-                        keys.size(), R.tier().c_str(), sp::leaves().size(), sp::num_unary_transforms,
-                        sp::num_binary_transforms, int(sp::num_placements), nlat));
+    R.note("space", fmt("%zu programs in tier %s (%zu leaves of which %d base, %zu transforms, %d "
+                        "placements, %d tolerances), %d^3 x (2 + extra content boxes) lattice probes "
+                        "each + directed probes for kind f",
+                        keys.size(), R.tier().c_str(), sp::leaves().size(), sp::num_base_leaves,
+                        sp::transforms().size(), int(sp::num_placements_ext), sp::num_tolerances, nlat));
     return R.finish();
 }
